@@ -70,7 +70,9 @@ def run(rep, tier):
             if f.get("lambda") or f["sn"].startswith("impl_"):
                 continue
             inst = "%s | %s" % (db.label, f["full"][:150])
-            private_primitive = f.get("access") == 2 and f["sn"] in ("internal_factory", "tainted", "get_raw_value_ref", "get_sandbox_value_ref")
+            # private members of the wrappers are reachable only from members / friends, every one of which is analysed as a root with
+            # the private member inlined (who may name them is C01's R-C01-surface); they are not entry points of their own
+            private_primitive = f.get("access") == 2 and f["n"].rsplit("::", 1)[0] in ("rlbox::tainted", "rlbox::tainted_volatile")
             if private_primitive:
                 continue
             if f["n"].startswith("rlbox::detail::"):
@@ -118,7 +120,8 @@ def run(rep, tier):
             if bad:
                 e, conds = bad
                 st = q.stack_site(e, skip_detail=True) or site(f)
-                if st.endswith("::tainted") or st.endswith("::internal_factory"):
+                stf = next((g for g in db.fn_by_name.get(st, []) if not g["dep"]), None)
+                if st.endswith("::tainted") or (stf is not None and stf.get("access") == 2):
                     st = site(f)
                 rep.violation("R-C03-producers", st, "a tainted object pointer is created with the value %s, which is not null, not a backend translation, not membership-checked, not same-sandbox as a non-null justified base, "
                               "not an address inside a tainted_volatile and not a copy of a tainted pointer" % fmt(e.b)[:140], e.loc, inst, {"entry": site(f)})
